@@ -60,6 +60,14 @@ let result_str r =
 (* case: (rk mode cap tree)  with mode = forked | inproc | (single <name>) *)
 let runner_case (s : sexp) : string =
   match s with
+  | L [A "twice"; rk; A mode; cap; tree] ->
+      (* one reporter, two consecutive runs of the same tree: both verdicts and the totals after the second *)
+      let rk = rk_of (atom rk) and cap = ni cap and tree = node_of tree in
+      let m = (if mode = "inproc" then InProcess else Forked) in
+      (match run_two rk verdict_suite m cap tree tree with
+       | (Finished (v1, _), Finished (v2, p2)) ->
+           Printf.sprintf "%d %d %s" (if v1 then 0 else 1) (if v2 then 0 else 1) (cnt_str p2.tot)
+       | _ -> "crash")
   | L [A "timeout-accepts"; v] ->
       let bytes = (match v with A "e" -> [] | L l -> List.map (fun x -> n_of_int (int_of_string (atom x))) l | _ -> failwith "bytes") in
       if setting_accepted (Some bytes) then "1" else "0"
